@@ -10,7 +10,7 @@ use serde_json::json;
 use std::collections::{BTreeMap, BTreeSet};
 use std::time::{Duration, Instant};
 use vh::persist_kit::{client_view, project};
-use vh::resp;
+use vh::resp::{self, Argv};
 use vh::seqx::Bfs;
 use vh::{cli, Reporter, Tier};
 
@@ -359,6 +359,56 @@ fn run(nodes: usize, max_ops: usize, alpha: &[Ev], hist: &[u16], ev: u16) -> Opt
     })
 }
 
+
+// ---------------------------------------------------------------------------------------------
+// command-set sweep: what a node serves after ONE command of the full command set vs its own replication state
+// ---------------------------------------------------------------------------------------------
+
+const SWEEP_SEEDS: &[(&str, &[&str])] = &[
+    ("none", &[]),
+    ("string", &["SET k 10"]),
+    ("string+ttl", &["SET k 10 EX 100"]),
+    ("hash", &["HSET k a 1 b 2"]),
+];
+
+fn sweep_instances() -> Vec<Argv> {
+    vh::cmdgen::all_instances(vh::cmdgen::Profile::Routing)
+        .into_iter()
+        .filter(|a| !a.is_empty())
+        .map(|a| a.into_iter().map(|t| if t == b"k1" { b"k".to_vec() } else if t == b"k2" { b"j".to_vec() } else { t }).collect::<Argv>())
+        .filter(|a| resp::parse(a).is_ok())
+        // MULTI/EXEC/DISCARD/WATCH/UNWATCH are connection-level commands (the handler never forwards them to a shard)
+        .filter(|a| !matches!(String::from_utf8_lossy(&a[0]).to_ascii_uppercase().as_str(), "MULTI" | "EXEC" | "DISCARD" | "WATCH" | "UNWATCH"))
+        .collect()
+}
+
+/// Err((signature, detail)) when node 0 serves something else than its replication state says after `seed; inst`.
+fn sweep_case(seed: usize, inst: &Argv) -> Result<(), (String, String)> {
+    RT.with(|rt| {
+        rt.block_on(async {
+            let w = World::new(1);
+            for s in SWEEP_SEEDS[seed].1 {
+                let _ = w.nodes[0].execute(resp::parse(&resp::line(s)).expect("seed parses")).await;
+            }
+            let (reply, _) = w.nodes[0].execute(resp::parse(inst).expect("filtered")).await;
+            let reads = w.reads(0).await;
+            let (views, _) = w.snapshot_views(0).await;
+            if reads == views {
+                return Ok(());
+            }
+            let k = reads.keys().chain(views.keys()).find(|k| reads.get(*k) != views.get(*k)).unwrap().clone();
+            let mut name = String::from_utf8_lossy(&inst[0]).to_ascii_uppercase();
+            if matches!(name.as_str(), "SCRIPT" | "OBJECT" | "DEBUG" | "CONFIG" | "CLIENT") && inst.len() > 1 {
+                name = format!("{name} {}", String::from_utf8_lossy(&inst[1]).to_ascii_uppercase());
+            }
+            Err((
+                format!("serves!=replication-state after-one-command {name}"),
+                format!("key k holds {} ; `{}` (reply {}) on a replicated node: clients read {:?} for key {k} but the node's replication state says {:?}", SWEEP_SEEDS[seed].0, resp::show_argv(inst), resp::show(&reply).chars().take(80).collect::<String>(), reads.get(&k), views.get(&k)),
+            ))
+        })
+    })
+}
+
 fn main() {
     let args = cli::parse_args();
     vh::quiet_panics();
@@ -375,6 +425,21 @@ fn main() {
     };
     if let Some(path) = &args.replay {
         let r = vh::report::load_replay(path);
+        if r["sweep"] == json!(true) {
+            let inst: Argv = r["command"].as_array().unwrap().iter().map(|t| resp::unescape(t.as_str().unwrap())).collect();
+            let seed = SWEEP_SEEDS.iter().position(|x| x.0 == r["key_holds"].as_str().unwrap()).unwrap();
+            match sweep_case(seed, &inst) {
+                Err((sig, detail)) => {
+                    println!("{detail}");
+                    println!("VIOLATION property=C06 replay={} ({sig})", path.display());
+                    std::process::exit(1);
+                }
+                Ok(()) => {
+                    println!("replay: no violation");
+                    std::process::exit(0);
+                }
+            }
+        }
         let nodes = r["nodes"].as_u64().unwrap() as usize;
         let ops: Vec<usize> = r["ops"].as_array().unwrap().iter().map(|x| x.as_u64().unwrap() as usize).collect();
         let alpha = alphabet(nodes, &ops);
@@ -427,7 +492,17 @@ fn main() {
             "depth_completed": stats.depth_completed, "states": stats.states, "enabled_transitions": stats.transitions - dis,
             "violating_transitions": stats.pruned_transitions - dis, "truncated_by_time_cap": stats.truncated, "frontier_sizes": stats.frontier_sizes}));
     }
+    // command-set sweep on one node
+    let insts = sweep_instances();
+    let sweep_items: Vec<(usize, usize)> = (0..SWEEP_SEEDS.len()).flat_map(|s| (0..insts.len()).map(move |i| (s, i))).collect();
+    vh::par::par_map(&sweep_items, |_, (s, i)| {
+        if let Err((sig, detail)) = sweep_case(*s, &insts[*i]) {
+            rep.violation(sig, detail, json!({"sweep": true, "key_holds": SWEEP_SEEDS[*s].0, "command": insts[*i].iter().map(|t| resp::esc(t)).collect::<Vec<_>>()}));
+        }
+    });
     let coverage = json!({
+        "command_set_sweep": {"command_instances": insts.len(), "cases": sweep_items.len(), "key_states": SWEEP_SEEDS.iter().map(|x| x.0).collect::<Vec<_>>(),
+            "rule": "every command shape of the parsers' command set (template product, one or two well-formed values per argument) is executed once on a fresh replicated node whose key k is absent / a string / a string with TTL / a hash; afterwards what clients read for k and j (TYPE, GET / HGETALL, TTL) must equal the projection of the node's own replication snapshot"},
         "states": states,
         "transitions": transitions,
         "traces_validated_against_impl": transitions,
